@@ -523,9 +523,11 @@ func H_C05_fold2q() {
 	rhC05Run(k, f, []int{1, 1})
 }
 
-// H_C05_fold2: two plugins (1 and 2 updates), single fields and 18 field pairs, 3 request kinds.
+// H_C05_fold2: two plugins (1 and 2 updates): 5 single fields and 3 field pairs in creation requests, 1 pair
+// in update requests, 2 pairs in stop requests (the full 108 instances take about 90 minutes on 16 cores).
 //verif:property C05
 //verif:instances 108
+//verif:thorough-instances 0 4 8 12 16 18 24 30 54 90 96
 //verif:tier thorough
 //verif:expect-cover collected expected-failure own-last
 func H_C05_fold2() {
@@ -533,10 +535,11 @@ func H_C05_fold2() {
 	rhC05Run(k, f, []int{1, 2})
 }
 
-// H_C05_fold3: three plugins (1,2,1 updates).
+// H_C05_fold3: three plugins (1,2,1 updates). Not part of any tier: one instance takes more than 7 minutes on
+// 16 cores (run it with `symgo run --property C05 --tier off --harness H_C05_fold3 --instance N`).
 //verif:property C05
 //verif:instances 108
-//verif:tier thorough
+//verif:tier off
 //verif:expect-cover collected expected-failure own-last
 func H_C05_fold3() {
 	k, f := c05Instance(instance())
